@@ -79,6 +79,9 @@ func genTStep(rt *rapid.T, nc int, hostile bool) TStep {
 		if rapid.IntRange(0, 5).Draw(rt, "otherOwner") == 0 {
 			st.P = rapid.IntRange(0, nc-1).Draw(rt, "owner")
 		}
+		if rapid.IntRange(0, 7).Draw(rt, "hangup") == 0 {
+			st.Side = "hangup"
+		}
 		st.K = rapid.SampledFrom([]int{0, 0, 0, 1, 2, -1}).Draw(rt, "k")
 		st.Seed = rapid.Uint64Range(0, 1<<16).Draw(rt, "seed")
 		if rapid.IntRange(0, 5).Draw(rt, "ou") == 0 {
